@@ -143,10 +143,10 @@ def accept_side(wg, manifest_keys):
     return {"nodes": sorted(nodes), "n_edges": g.number_of_edges(), "problems": problems}, None
 
 
-def observe_dict(doc, manifest, platform=None):
+def observe_dict(doc, manifest, platform=None, primitive=False):
     import experiment.model.graph
     try:
-        wg = experiment.model.graph.WorkflowGraph.graphFromFlowIR(copy.deepcopy(doc), dict(manifest), primitive=False,
+        wg = experiment.model.graph.WorkflowGraph.graphFromFlowIR(copy.deepcopy(doc), dict(manifest), primitive=primitive,
                                                                   platform=platform)
     except CaseTimeout:
         raise
@@ -175,14 +175,14 @@ def write_package(doc, files, root):
     return pkg
 
 
-def observe_file(doc, files, materialise=False, platform=None, manifest=None):
+def observe_file(doc, files, materialise=False, platform=None, manifest=None, primitive=False):
     import experiment.model.conf
     root = vlib.mkscratch("c11pkg")
     try:
         pkg = write_package(doc, files, root)
         try:
             conf = experiment.model.conf.ExperimentConfigurationFactory.configurationForExperiment(
-                pkg, platform=platform, validate=True, primitive=False, createInstanceFiles=False,
+                pkg, platform=platform, validate=True, primitive=primitive, createInstanceFiles=False,
                 updateInstanceFiles=False, manifest=dict(manifest) if manifest else None)
         except CaseTimeout:
             raise
@@ -232,10 +232,11 @@ def observe_file(doc, files, materialise=False, platform=None, manifest=None):
 
 
 def observe(case):
-    if case["api"] == "dict":
-        return observe_dict(case["doc"], case.get("manifest") or {}, platform=case.get("platform"))
+    primitive = case["api"].endswith("-primitive")
+    if case["api"].startswith("dict"):
+        return observe_dict(case["doc"], case.get("manifest") or {}, platform=case.get("platform"), primitive=primitive)
     return observe_file(case["doc"], case.get("files") or {}, materialise=case.get("materialise", False),
-                        platform=case.get("platform"), manifest=case.get("manifest") or None)
+                        platform=case.get("platform"), manifest=case.get("manifest") or None, primitive=primitive)
 
 
 def warmup():
@@ -280,7 +281,7 @@ def judge_mutant(out, api):
     if st == "rejected":
         if out["family"] == "ExperimentInvalidConfigurationError":
             return None
-        if api == "dict" and out["family"] in ("FlowIRException", "FlowIRSyntaxException"):
+        if api.startswith("dict") and out["family"] in ("FlowIRException", "FlowIRSyntaxException"):
             return None
         return "rejected with %s (family %s) on the %s API, expected ExperimentInvalidConfigurationError" % (
             out["type"], out["family"], api)
@@ -397,6 +398,9 @@ def mut_key(m, base):
 ALWAYS_FILE_API = ("duplicate-id", "remove-index-variable", "remove-array-variable", "rename-index-at-use",
                    "rename-array-at-use", "index-out-of-range", "remove-replication", "replica-outside-replication")
 # mutants whose fault sits in / behind a reference spelled with a variable: every second one also on the file API
+# an undefined variable other than `replica` must also be rejected by a PRIMITIVE (unreplicated) validated load: these
+# kinds additionally go through graphFromFlowIR(primitive=True) and configurationForExperiment(primitive=True)
+PRIMITIVE_TOO = ("remove-index-variable", "remove-array-variable", "rename-index-at-use", "rename-array-at-use")
 SPELLED_KINDS = ("back-edge-through-variable", "self-reference-through-variable", "rename-reference-in-variable",
                  "rename-reference-through-variable", "remove-reference-variable")
 
@@ -470,6 +474,8 @@ def run_job(job, w):
             if (m["kind"] in ALWAYS_FILE_API or (this + k) % job["file_every"] == 0
                     or (spelled_fault and (this + k) % 2 == 0)):
                 apis.append("file")
+            if m["kind"] in PRIMITIVE_TOO and not any(a.get("replica") for a in base.get("arrays") or []):
+                apis += ["dict-primitive", "file-primitive"]
             outs = {}
             for api in apis:
                 case = {"api": api, "doc": m["doc"], "files": base["files"], "manifest": base.get("manifest") or {},
@@ -487,7 +493,7 @@ def run_job(job, w):
                     continue
                 w.evaluated()
                 w.count("mutant_cases")
-                w.count("mutant_%s_api" % api)
+                w.count("mutant_%s_api" % api.replace("-", "_"))
                 w.count("mutant_" + m["kind"])
                 if m["kind"] == "wrong-type":
                     w.count("mistype_%s" % m.get("class"))
@@ -611,6 +617,12 @@ def main():
                        "on the dictionary API a FlowIRException / FlowIRSyntaxException subclass is an accepted "
                        "rejection (duplicate identifiers are detected while FlowIRConcrete is constructed, before the "
                        "loader's error collection starts)",
+                       "the array-variable mutants (undefined array / index variable) additionally go through the PRIMITIVE "
+                       "validated loads graphFromFlowIR(primitive=True) / configurationForExperiment(primitive=True): only "
+                       "`replica` may be unknown there; documents that contain an access %(arr)s[%(replica)s] are not sent "
+                       "through the primitive loads (with the index unknowable the primitive loader leaves the whole option "
+                       "string alone and cannot see an undefined array / index in it; the replicated loads reject it - judged "
+                       "there)",
                        "the file API is exercised for every duplicate-id and array-variable mutant, every second mutant whose "
                        "fault sits in or behind a variable-spelled reference and a deterministic 1-in-k sample of the others",
                        "an out-of-range literal array index is recorded as information only (info_index-out-of-range_* counters), not judged",
@@ -649,11 +661,13 @@ def main():
         c.floor("mutant_" + kind, 300 if thorough else 40)
     c.floor("base_with_array_variables", 300 if thorough else 60)
     c.floor("mutant_replica-outside-replication", 3000 if thorough else 400)
+    c.floor("mutant_dict_primitive_api", 1500 if thorough else 200)
+    c.floor("mutant_file_primitive_api", 1500 if thorough else 200)
     # component names that equal a special folder / application dependency / manifest folder up to case
     c.floor("base_with_folder_like_component_names", 250 if thorough else 40)
     c.floor("mutant_cycle_in_document_with_folder_like_names", 5000 if thorough else 500)
     c.floor("mutant_dangling-reference_in_document_with_folder_like_names", 1500 if thorough else 150)
-    c.floor("mutant_relative_closing_edge", 5000 if thorough else 600)
+    c.floor("mutant_relative_closing_edge", 3000 if thorough else 600)
     c.floor("mutant_remove-replication", 150 if thorough else 15)
     # classes of mistyped options (documented type <- kind of value), and where they are written
     for cls_, q, t in (("nonintegral-float-for-int", 80, 1500), ("nonintegral-numeric-string-for-int", 60, 1200),
